@@ -156,50 +156,150 @@ def tau2_position(c):
     return pos
 
 
-def run_tau2(c, ks=False):
-    """fills c['obs'] from the real code"""
+def observe_tau2(model, iface, state, group, g, seed, ts, f32, ks):
+    """one real tau2_gibbs_kernel of [group] on [state]: patched transition, log_prob profile, unpatched draws"""
     from unittest import mock
     L = lib()
-    jax, jnp, np, gs = L["jax"], L["jnp"], L["np"], L["gs"]
-    model = build_tau2(c)
-    iface = gs.LieselInterface(model)
-    kernel = L["tau2_gibbs_kernel"](model.groups()["s"])
+    jax, jnp, np = L["jax"], L["jnp"], L["np"]
+    kernel = L["tau2_gibbs_kernel"](group)
     kernel.set_model(iface)
-    state = iface.update_state(tau2_position(c), model.state)
-    key = jax.random.PRNGKey(c["seed"])
+    tname = group["tau2"].name
+    key = jax.random.PRNGKey(seed)
     calls = []
 
     def fake(k, a, *args, **kw):
         calls.append((key_pair(k), float(np.asarray(a)), tuple(np.shape(a))))
-        return jnp.asarray(c["g"], dtype=jnp.result_type(a))
+        return jnp.asarray(g, dtype=jnp.result_type(a))
 
     with mock.patch("jax.random.gamma", fake):
         out = kernel.transition(key, kernel.init_state(key, state), state, None)
-    draw = iface.extract_position(["s_tau2"], out.model_state)["s_tau2"]
+    draw = iface.extract_position([tname], out.model_state)[tname]
     obs = {"ncalls": len(calls), "draw": float(np.asarray(draw)), "draw_shape": list(np.shape(draw)),
            "error_code": int(np.asarray(out.info.error_code)),
-           "rank_node": float(np.asarray(model.vars["s_rank"].value))}
+           "rank_node": float(np.asarray(group["rank"].value)), "position_keys": list(kernel.position_keys)}
     if calls:
         obs["conc"] = calls[0][1]
         obs["conc_shape"] = list(calls[0][2])
         obs["key_ok"] = calls[0][0] == key_pair(key)
     # the returned model state is the updated one: its log_prob is the model's log_prob at the draw
     lp_new = float(np.asarray(iface.log_prob(out.model_state)))
-    lp_direct = float(np.asarray(iface.log_prob(iface.update_state({"s_tau2": draw}, state))))
+    lp_direct = float(np.asarray(iface.log_prob(iface.update_state({tname: draw}, state))))
     obs["state_lp"] = [lp_new, lp_direct]
-    dt = np.float32 if c["f32"] else np.float64
-    obs["lps"] = [float(np.asarray(iface.log_prob(iface.update_state({"s_tau2": jnp.asarray(t, dtype=dt)}, state))))
-                  for t in c["ts"]]
+    dt = np.float32 if f32 else np.float64
+    obs["lps"] = [float(np.asarray(iface.log_prob(iface.update_state({tname: jnp.asarray(t, dtype=dt)}, state))))
+                  for t in ts]
     if ks or len(calls) != 1:
         # (a refactoring may use another sampler: then only the distribution of the draws can be judged)
         f = jax.jit(jax.vmap(lambda k: iface.extract_position(
-            ["s_tau2"], kernel.transition(k, {}, state, None).model_state)["s_tau2"]))
-        keys = jax.random.split(jax.random.PRNGKey(c["seed"] + 1), KS_N)
+            [tname], kernel.transition(k, {}, state, None).model_state)[tname]))
+        keys = jax.random.split(jax.random.PRNGKey(seed + 1), KS_N)
         d = np.sort(np.asarray(f(keys), dtype=np.float64))
         obs["draws_sorted_sample"] = [float(x) for x in d[:: max(1, KS_N // 8)]]
         obs["_draws"] = d
-    c["obs"] = obs
+    return obs
+
+
+def run_tau2(c, ks=False):
+    """fills c['obs'] from the real code"""
+    L = lib()
+    model = build_tau2(c)
+    iface = L["gs"].LieselInterface(model)
+    state = iface.update_state(tau2_position(c), model.state)
+    c["obs"] = observe_tau2(model, iface, state, model.groups()["s"], c["g"], c["seed"], c["ts"], c["f32"], ks)
     return c
+
+
+# ------------------------------------------------------------------------------------------------
+# hand-built models (public liesel.model API, no DistRegBuilder) with several smooth groups whose nodes
+# are named like the group-specific keys of other groups
+# ------------------------------------------------------------------------------------------------
+GROUP_KEYS = ["a", "b", "K", "rank", "beta", "tau2"]
+
+
+def node_names(c, gi):
+    """names of the hyperparameter / penalty / rank nodes and of the tau2 / beta variables of group gi"""
+    sfx = c["groups"][gi]["suffix"]
+    return {k: k + sfx for k in GROUP_KEYS}
+
+
+def build_hand(c):
+    L = lib()
+    np, jnp, lsl, tfd = L["np"], L["jnp"], L["lsl"], L["tfd"]
+    from liesel.distributions import MultivariateNormalDegenerate
+    dt = np.float32 if c["f32"] else np.float64
+    smooths = []
+    for gi, gr in enumerate(c["groups"]):
+        nm = node_names(c, gi)
+        K = np.asarray(gr["K"], dtype=dt)
+        # the model OBJECT holds other hyperparameters / coefficients than the STATE handed to the kernels
+        a_node = lsl.Value(np.asarray(gr["a"] + 1.0, dtype=dt), _name=nm["a"])
+        b_node = lsl.Value(np.asarray(2.0 * gr["b"], dtype=dt), _name=nm["b"])
+        K_node = lsl.Data(K, _name=nm["K"])
+        rank_node = lsl.Data(np.linalg.matrix_rank(K), _name=nm["rank"])
+        tau2 = lsl.param(np.asarray(1.0, dtype=dt), lsl.Dist(tfd.InverseGamma, concentration=a_node, scale=b_node),
+                         name=nm["tau2"])
+        beta = lsl.param(np.zeros(len(K), dtype=dt),
+                         lsl.Dist(MultivariateNormalDegenerate.from_penalty, loc=np.asarray(0.0, dtype=dt), var=tau2,
+                                  pen=K_node, rank=rank_node), name=nm["beta"])
+        X = lsl.Data(np.asarray(gr["X"], dtype=dt), _name="X" + gr["suffix"])
+        sm = lsl.Var(lsl.Calc(lambda X, beta: X @ beta, X, beta), name="f" + gr["suffix"])
+        lsl.Group(f"smooth{gi}", tau2=tau2, a=a_node, b=b_node, rank=rank_node, beta=beta, K=K_node, smooth=sm)
+        smooths.append(sm)
+    mu = lsl.Var(lsl.Calc(lambda *fs: sum(fs), *smooths), name="mu")
+    y = lsl.obs(np.asarray(c["y"], dtype=dt), lsl.Dist(tfd.Normal, loc=mu, scale=np.asarray(1.0, dtype=dt)), name="y")
+    extra = []
+    for k, v in (c.get("decoys") or {}).items():
+        # nodes of the model that belong to no group but are NAMED like a group-specific key
+        extra.append(lsl.Data(np.asarray(v, dtype=dt), _name=k))
+    return lsl.GraphBuilder(to_float32=bool(c["f32"])).add(y, *extra).build_model()
+
+
+def hand_position(c):
+    L = lib()
+    np, jnp = L["np"], L["jnp"]
+    dt = np.float32 if c["f32"] else np.float64
+    pos = {}
+    for gi, gr in enumerate(c["groups"]):
+        nm = node_names(c, gi)
+        pos[nm["a"]] = jnp.asarray(gr["a"], dtype=dt)
+        pos[nm["b"]] = jnp.asarray(gr["b"], dtype=dt)
+        pos[nm["beta"]] = jnp.asarray(np.asarray(gr["beta"], dtype=dt))
+        pos[nm["tau2"]] = jnp.asarray(gr["tau2_0"], dtype=dt)
+    return pos
+
+
+def run_hand(c, ks=False):
+    L = lib()
+    model = build_hand(c)
+    iface = L["gs"].LieselInterface(model)
+    state = iface.update_state(hand_position(c), model.state)
+    groups = model.groups()
+    c["obs"] = {"groups": [observe_tau2(model, iface, state, groups[f"smooth{gi}"], gr["g"], c["seed"] + 7 * gi,
+                                        c["ts"], c["f32"], ks)
+                           for gi, gr in enumerate(c["groups"])],
+                "node_names": sorted(n for n in model.nodes if not n.startswith("_model"))[:60]}
+    return c
+
+
+def group_case(c, gi):
+    """group gi of a hand-built case in the shape of a single-smooth case (for the oracle and the lemmas)"""
+    gr = c["groups"][gi]
+    return {"kind": "tau2", "K": gr["K"], "a": gr["a"], "b": gr["b"], "beta": gr["beta"], "g": gr["g"],
+            "f32": c["f32"], "ts": c["ts"], "obs": c["obs"]["groups"][gi]}
+
+
+def oracle_hand(c):
+    for gi in range(len(c["groups"])):
+        sub = group_case(c, gi)
+        nm = node_names(c, gi)
+        if sub["obs"].get("position_keys") != [nm["tau2"]]:
+            return f"kernel of group smooth{gi} has position keys {sub['obs'].get('position_keys')}, its tau2 is {nm['tau2']!r}"
+        r = oracle_tau2(sub)
+        if r:
+            others = [sorted(node_names(c, j).values()) for j in range(len(c["groups"])) if j != gi]
+            return (f"group smooth{gi} (its nodes: {sorted(nm.values())}; other groups' nodes: {others}; "
+                    f"further nodes named like group keys: {sorted((c.get('decoys') or {}))}): {r}")
+    return None
 
 
 def fit_ig(ts, lps):
@@ -553,6 +653,55 @@ def gen_tau2(rnd, idx, kt=None, bt=None, f32=None):
     return c
 
 
+def pen_of(rnd, kt, p):
+    """p x p penalty of the given type (the groups of a hand-built model share p)"""
+    if kt == "zero":
+        return [[0.0] * p for _ in range(p)]
+    if kt == "gram":
+        B = [[float(rnd.randint(-2, 2)) for _ in range(p)] for _ in range(rnd.randint(1, p))]
+        return [[sum(B[k][i] * B[k][j] for k in range(len(B))) for j in range(p)] for i in range(p)]
+    K = diff_pen(p, 2 if (kt == "rw2" and p >= 3) else 1)
+    if kt == "full":
+        for i in range(p):
+            K[i][i] += rnd.choice([1.0, 2.0, 0.5])
+    f = rnd.choice([4.0, 0.25]) if kt == "scaled" else 1.0
+    return [[f * x for x in row] for row in K]
+
+
+HAND_STRATA = ["short_first", "decoys", "short_last", "short_first_decoys", "three_groups", "all_suffixed"]
+
+
+def gen_hand(rnd, idx, st=None):
+    st = st or HAND_STRATA[idx % len(HAND_STRATA)]
+    ng = 3 if st == "three_groups" else 2
+    p = rnd.randint(2, 4)
+    n = rnd.randint(3, 5)
+    if st in ("short_first", "short_first_decoys", "three_groups"):
+        sfx = [""] + [f"_{i + 1}" for i in range(1, ng)]        # a, b, K, rank, beta, tau2 / a_2, ... / a_3, ...
+    elif st == "short_last":
+        sfx = [f"_{i + 1}" for i in range(ng - 1)] + [""]
+    else:
+        sfx = [f"_{i + 1}" for i in range(ng)]
+    kts = rnd.sample(["full", "rw1", "rw2", "scaled", "gram", "zero", "rw1"], ng)
+    groups = []
+    for gi in range(ng):
+        K = pen_of(rnd, kts[gi], p)
+        groups.append({"suffix": sfx[gi], "ktype": kts[gi], "K": K,
+                       # hyperparameters of the groups differ pairwise (a by >= 0.5, b by a factor)
+                       "a": [0.5, 2.0, 3.5][gi] + rnd.choice([0.0, 0.25]), "b": [0.5, 2.0, 8.0][gi] * rnd.choice([1.0, 0.5]),
+                       "beta": [dy(rnd, -3, 3, 4) for _ in range(p)], "tau2_0": rnd.choice([0.5, 1.0, 2.0, 4.0]),
+                       "g": rnd.choice([0.25, 0.5, 2.0, 3.0, 0.75]),
+                       "X": [[dy(rnd, -1, 1, 4) for _ in range(p)] for _ in range(n)]})
+    c = {"kind": "hand", "stratum": st, "groups": groups, "seed": rnd.randint(0, 2 ** 31 - 1),
+         "y": [dy(rnd, -2, 2, 4) for _ in range(n)], "f32": idx % 4 == 3, "ts": list(PROFILE_TS), "decoys": {}}
+    if st in ("decoys", "short_first_decoys"):
+        taken = {k + g["suffix"] for g in groups for k in GROUP_KEYS}
+        dec = {"a": 7.5, "b": 16.0, "rank": float(p + 3), "K": [[9.0 if i == j else 0.0 for j in range(p)] for i in range(p)],
+               "beta": [4.0] * p, "tau2": 32.0}
+        c["decoys"] = {k: v for k, v in dec.items() if k not in taken}
+    return c
+
+
 DISC_STRATA = ["finite_both", "bern_normal", "finite_prior_only", "bern_out_rev", "finite_poisson", "finite_sub",
                "bern_both", "finite_single", "finite_zero_prob", "finite_resid", "bern_resid"]
 
@@ -617,6 +766,8 @@ def stratum(c):
         p = len(c["K"])
         return (f"tau2.K={c['ktype']}.{'fullrank' if r == p else 'rank0' if r == 0 else 'deficient'}."
                 f"beta={c['btype']}.{'f32' if c['f32'] else 'x64'}")
+    if c["kind"] == "hand":
+        return f"hand.{c['stratum']}.{len(c['groups'])}groups.{'f32' if c['f32'] else 'x64'}"
     return f"disc.{c['stratum']}"
 
 
@@ -630,6 +781,8 @@ def run_case(c, heavy=False):
     try:
         if c["kind"] == "tau2":
             return run_tau2(c, ks=heavy)
+        if c["kind"] == "hand":
+            return run_hand(c, ks=heavy)
         return run_disc(c, freq=heavy)
     except Exception as ex:
         import traceback
@@ -640,7 +793,7 @@ def run_case(c, heavy=False):
 
 def generate(ctx):
     rnd = random.Random(ctx.seed)
-    n_tau2, n_disc = (32, 32) if ctx.quick else (200, 200)
+    n_tau2, n_disc, n_hand = (28, 28, 12) if ctx.quick else (180, 180, 72)
     heavy_every = 8 if ctx.quick else 5
     cases = [dict(c) for c in corpus_cases()]
     ncorpus = len(cases)
@@ -648,6 +801,8 @@ def generate(ctx):
         cases.append(gen_tau2(rnd, i))
     for i in range(n_disc):
         cases.append(gen_disc(rnd, i))
+    for i in range(n_hand):
+        cases.append(gen_hand(rnd, i))
     nheavy = 0
     seen = set()
     for i, c in enumerate(cases):
@@ -661,12 +816,17 @@ def generate(ctx):
             ctx.hist("tau2.gamma_patched" if c["obs"]["ncalls"] == 1 else "tau2.gamma_not_called")
             if "_draws" in c["obs"]:
                 ctx.hist("tau2.unpatched_jit_vmap_draws")
+        elif c["kind"] == "hand":
+            ctx.hist("hand.kernels_observed", len(c["obs"]["groups"]))
+            if any("_draws" in o for o in c["obs"]["groups"]):
+                ctx.hist("hand.unpatched_jit_vmap_draws")
         else:
             if "freq" in c["obs"]:
                 ctx.hist("disc.unpatched_jit_vmap_draws")
         seen.add(json.dumps(strip(c), sort_keys=True, default=str))
-        ctx.sample({k: v for k, v in strip(c).items() if k not in ("X", "y")} | {"obs": {
-            k: v for k, v in c["obs"].items() if not k.startswith("_") and k != "draws_sorted_sample"}}, limit=4)
+        if c["kind"] != "hand":
+            ctx.sample({k: v for k, v in strip(c).items() if k not in ("X", "y")} | {"obs": {
+                k: v for k, v in c["obs"].items() if not k.startswith("_") and k != "draws_sorted_sample"}}, limit=4)
     ctx.count(len(cases), len(seen))
     ctx.cov["rule"] = ("one case = one real model + one real kernel transition; distinct = distinct (penalty matrix, "
                        "hyperparameters, coefficients, forced variate, family) / (prior, outcomes, likelihood data, forced "
@@ -701,10 +861,14 @@ def oracle(c):
     try:
         if "raised" in c["obs"]:
             return f"the kernel transition (or the model's log_prob) raised {c['obs']['raised']}"
+        if c["kind"] == "hand":
+            return oracle_hand(c)
         return oracle_tau2(c) if c["kind"] == "tau2" else oracle_disc(c)
     finally:
         if "obs" in c:
             c["obs"].pop("_draws", None)
+            for o in c["obs"].get("groups", []):
+                o.pop("_draws", None)
 
 
 def klass(c):
@@ -715,22 +879,26 @@ def klit(K):
     return lst(lst(rlit(x) for x in row) for row in K)
 
 
-def lemmas_of(ci, c):
+def lemmas_of(ci, c, tag=""):
     out = []
     o = c["obs"]
     if "raised" in o:
+        return out
+    if c["kind"] == "hand":
+        for gi in range(len(c["groups"])):
+            out += lemmas_of(ci, group_case(c, gi), tag=f"g{gi}_")
         return out
     if c["kind"] == "tau2":
         tol = TOL32 if c["f32"] else TOL64
         head = f"{rlit(c['a'])} {rlit(c['b'])} {exact_rank(c['K'])} {lst(rlit(x) for x in c['beta'])} {klit(c['K'])}"
         if o["ncalls"] == 1 and finite(o.get("conc")) and finite(o["draw"]):
-            out.append((f"c{ci}_kernel", f"tau2_ok {head} {rlit(c['g'])} {rlit(o['conc'])} {rlit(o['draw'])} "
+            out.append((f"c{ci}_{tag}kernel", f"tau2_ok {head} {rlit(c['g'])} {rlit(o['conc'])} {rlit(o['draw'])} "
                                          f"{rlit(tol * max(1, abs(o['conc'])))} {rlit(tol * max(1, abs(o['draw'])))}"))
         if all(finite(x) for x in o["lps"]):
             scale = max(1.0, max(abs(x) for x in o["lps"]))
             for j in range(1, len(c["ts"])):
                 d = o["lps"][j] - o["lps"][0]
-                out.append((f"c{ci}_profile{j}", f"profile_ok {head} {rlit(c['ts'][0])} {rlit(c['ts'][j])} {rlit(d)} "
+                out.append((f"c{ci}_{tag}profile{j}", f"profile_ok {head} {rlit(c['ts'][0])} {rlit(c['ts'][j])} {rlit(d)} "
                                                  f"{rlit(4 * tol * scale)}"))
     else:
         outs = o["draws"]
@@ -793,7 +961,7 @@ def search(ctx, disagreeing):
         return out
     rnd = random.Random(ctx.seed + 1)
     for i in range(60):
-        c = gen_tau2(rnd, i) if i % 2 == 0 else gen_disc(rnd, i)
+        c = gen_hand(rnd, i) if i % 3 == 2 else gen_tau2(rnd, i) if i % 2 == 0 else gen_disc(rnd, i)
         run_case(c, heavy=(i % 3 == 0))
         r = oracle(c)
         if r:
